@@ -139,9 +139,19 @@ func runC17(ctx *Ctx, c c17Case) {
 	for i := 0; i < c.N; i++ {
 		p := fmt.Sprintf("in%d.txt.stream.copy", i)
 		stats[p], _ = statOf(filepath.Join(rr.Dir, p))
+		if c.Multi == "os+o" {
+			for _, q := range []string{fmt.Sprintf("in%d.txt.log", i), fmt.Sprintf("in%d.txt.log.copy2", i)} {
+				stats[q], _ = statOf(filepath.Join(rr.Dir, q))
+			}
+		}
 	}
 	r2 := RunWorkflow(d, RunOpts{Dir: rr.Dir, Timeout: 8e9})
 	ctx.Res.Count("rerun")
+	if r2.Exit == -2 && c.Multi == "os+o" {
+		// not F10: this producer has an ordinary output as well, which exists, so it has to be skipped like its consumers
+		ctx.Res.Violate(Violation{What: "re-running the completed workflow does not terminate although the producer's ordinary output exists: the producer was executed again while its consumer was skipped", Class: "c17.rerun-hangs-mixed", Witness: c})
+		return
+	}
 	if r2.Exit == -2 {
 		ctx.Res.Violate(Violation{What: "re-running the completed streaming workflow does not terminate (the skipped consumer never opens the FIFO, the producer blocks)", Class: "c17.rerun-hangs", Witness: c})
 		return
@@ -191,6 +201,7 @@ func checkC17(ctx *Ctx) {
 	cases = append(cases, c17Case{N: 1, Bytes: 100, Max: 2, Linger: "producer"}, c17Case{N: 1, Bytes: 100, Max: 2, Linger: "consumer"}, c17Case{N: 2, Bytes: 70000, Max: 4, Rerun: true},
 		// a producer with a streaming and a second (ordinary / streaming) out-port, each with its own consumer
 		c17Case{N: 3, Bytes: 100, Max: 9, Multi: "os+o"}, c17Case{N: 2, Bytes: 70000, Max: 6, Multi: "os+o", Linger: "producer"}, c17Case{N: 2, Bytes: 100, Max: 6, Multi: "os+os"},
+		c17Case{N: 3, Bytes: 100, Max: 9, Multi: "os+o", Rerun: true}, c17Case{N: 2, Bytes: 70000, Max: 6, Multi: "os+o", Rerun: true},
 		c17Case{N: 2, Bytes: 100, Max: 4, SubDir: true},
 		c17Case{N: 2, Bytes: 100, Max: 4, Up: fmt.Sprintf("c17up_%d_a", os.Getpid())}, c17Case{N: 1, Bytes: 70000, Max: 2, Up: fmt.Sprintf("c17up_%d_b", os.Getpid()), Linger: "consumer"})
 	parallel(len(cases), 4, func(i int) {
